@@ -293,13 +293,14 @@ def status_of(rc):
 
 
 # ---------------------------------------------------------------------------------------------
-FAIL_RE = re.compile(r'^<<"MONITOR-FAIL", "([^"]*)", "([^"]*)", (\d+), "([^"]*)"(?:, "([^"]*)")?>>')
-STRICT_RE = re.compile(r'^<<"STRICT-FAIL", "([^"]*)", (\d+), "([^"]*)">>')
+# TLC pretty-prints a long tuple over several lines ("<< "MONITOR-FAIL",\n   "C09,C01", ..."): match across newlines
+FAIL_RE = re.compile(r'<<\s*"MONITOR-FAIL",\s*"([^"]*)",\s*"([^"]*)",\s*(\d+),\s*"([^"]*)"(?:,\s*"([^"]*)")?\s*>>', re.S)
+STRICT_RE = re.compile(r'<<\s*"STRICT-FAIL",\s*"([^"]*)",\s*(\d+),\s*"([^"]*)"\s*>>', re.S)
 
 
 def validate(spec, trace, trace2=None):
     """Runs TLC on one trace with one trace spec. Cached next to the trace."""
-    cache = "%s.%s.%s.json" % (trace, spec, spec_key())
+    cache = "%s.%s.%s.v2.json" % (trace, spec, spec_key())
     if os.path.exists(cache):
         return json.load(open(cache))
     meta = trace + "." + spec + ".meta"
@@ -313,14 +314,11 @@ def validate(spec, trace, trace2=None):
                        stdout=subprocess.PIPE, stderr=subprocess.STDOUT, text=True)
     shutil.rmtree(meta, ignore_errors=True)
     fails, strict = [], []
-    for line in r.stdout.splitlines():
-        m = FAIL_RE.match(line)
-        if m:
-            fails.append(dict(props=m.group(1).split(","), monitor=m.group(2), line=int(m.group(3)), op=m.group(4),
-                              ctx=(m.group(5) or "").split()))
-        m = STRICT_RE.match(line)
-        if m:
-            strict.append(dict(what=m.group(1), line=int(m.group(2)), op=m.group(3)))
+    for m in FAIL_RE.finditer(r.stdout):
+        fails.append(dict(props=m.group(1).split(","), monitor=m.group(2), line=int(m.group(3)), op=m.group(4),
+                          ctx=(m.group(5) or "").split()))
+    for m in STRICT_RE.finditer(r.stdout):
+        strict.append(dict(what=m.group(1), line=int(m.group(2)), op=m.group(3)))
     if fails:
         # crash-point segments come in pairs (faulted / fault-free twin making the same calls): note where
         # in its segment each failure sits, so that the two can be compared call by call
